@@ -36,7 +36,7 @@ FIELD_TYPES = {
     'obj': ('BaseSection', 'BaseProperty', 'BaseDocument'),
     'errors': ('list',),
 }
-LIST_ITEM_TYPES = {'errors': ('ValidationError',)}
+LIST_ITEM_TYPES = {'errors': ('ValidationError',), '_props': ('BaseProperty',), '_sections': ('BaseSection',)}
 # which classes carry which typed fields
 CLASS_TYPED_FIELDS = {
     'BaseSection': ('_sections', '_props', '_parent', '_name', '_id'),
